@@ -1,5 +1,6 @@
 import OrdModel.Proofs.TextOutgoing
 import OrdModel.Proofs.TextDecimalFixed
+import OrdModel.Theorems.C31Rune
 /-!
 # C31 — text parsers are total and never accept by overflow (work stream "text")
 
@@ -23,7 +24,11 @@ theorem c31_rust_parse_unsigned (w : Nat) (s : List Char) (n : Nat) :
     parseUnsigned w s = .ok n ↔ Numeral s n ∧ n < 2 ^ w :=
   parseUnsigned_ok_iff w s n
 
-/-! ## `Decimal::from_str` — unchanged code -/
+/-! ## `Decimal::from_str` — the code before the repair (model `Num/Decimal.lean`)
+
+These four theorems are statements about the *old* parser; they are kept because they are what
+the check reproduced on the real code before `notes/fix-decimal.diff` was applied (history of the
+finding).  The current code is covered by the `_fixed` theorems below. -/
 
 /-- **The totality clause is false of the unchanged code**: four panic sites are reachable
 (`integer * 10^scale`, `… + decimal`, `10u128.pow(scale)`, `u8::try_from(significant_digits)`). -/
@@ -116,19 +121,22 @@ theorem c31_inscription_id_sound (s : List Char) (v : InscriptionId.Val)
 
 /-! ## `Outgoing::from_str` -/
 
-/-- **false of the unchanged code**: the rune-amount alternative inherits the panics of
-`Decimal::from_str` and of `SpacedRune::from_str` (shift overflow, rune work stream's finding) -/
+/-- **false of the current code**: the rune-amount alternative inherits the shift-overflow panic of
+`SpacedRune::from_str` (the rune work stream's finding).  (Before `notes/fix-decimal.diff` it also
+inherited the overflow panics of `Decimal::from_str`; with the repaired parser that input is an
+error.) -/
 theorem c31_outgoing_no_panic_fails :
-    Outgoing.parse "340282366920938463463374607431768211455.5:A".toList = .panic "mul@integer*10^scale" ∧
-    Outgoing.parse "1:AAAAAAAAAAAAAAAAAAAAAAAAAAAAAAAAA.A".toList = .panic "shl@1<<(rune.len()-1)" := by
+    Outgoing.parse "1:AAAAAAAAAAAAAAAAAAAAAAAAAAAAAAAAA.A".toList = .panic "shl@1<<(rune.len()-1)" ∧
+    Outgoing.parse "340282366920938463463374607431768211455.5:A".toList =
+      .err "rune-amount:decimal out of range" := by
   refine ⟨by decide, by decide⟩
 
-/-- every panic of `Outgoing::from_str` is a panic of one of those two sub-parsers on the text
-captured by the RUNE regex; all other alternatives are total -/
+/-- every panic of `Outgoing::from_str` is a panic of `SpacedRune::from_str` on the name captured
+by the RUNE regex; all other alternatives (and the decimal amount) are total -/
 theorem c31_outgoing_no_panic_partial (s : List Char) (site : String)
     (h : Outgoing.parse s = .panic site) :
     ∃ num name, Regex.runeCaptures s = some (num, name) ∧
-      (Decimal.fromStr num = .panic site ∨ Sub.spacedRuneFromStr name = .panic site) :=
+      Sub.spacedRuneFromStr name = .panic site :=
   Outgoing.parse_panic_only_rune s site h
 
 theorem c31_outgoing_sound_satpoint (s : List Char) (v : SatPoint.Val)
